@@ -47,6 +47,8 @@ class SimFS:
         self.next_fd = 10
         self.fds = {}
         self.raw_fds = {}
+        self.read_faults = {}  # path -> kind: one-shot error when the file is opened for reading
+        self.read_faults_fired = 0
         # fault machinery
         self.armed = False
         self.opno = 0
@@ -238,6 +240,10 @@ class SimFS:
             ino = self.files.get(path)
             if ino is None:
                 raise FileNotFoundError(errno.ENOENT, "No such file or directory", path)
+            if path in self.read_faults:
+                kind = self.read_faults.pop(path)  # one-shot transient error on reading
+                self.read_faults_fired += 1
+                raise OSError(errno.EIO if kind == "EIO" else errno.EMFILE, f"simulated {kind} on read", path)
             if path in self.unreadable:
                 raise PermissionError(errno.EACCES, "Permission denied", path)
             raw = io.BytesIO(ino.cache)
